@@ -44,7 +44,7 @@ var errPanic error = panicErr{}
 
 // ---- structural JSON mutations (the malformed stream) ----
 
-var mutLeaves = []string{"null", "0", "-1", "1.5", "\"x\"", "\"\"", "[]", "[null]", "[null,null]", "{}", "{\"k\":null}", "true", "\"headers\"", "\"stream\"", "9223372036854775808", "[\"a\",1]", "\"user_scope\""}
+var mutLeaves = []string{"null", "0", "-1", "1.5", "\"x\"", "\"\"", "[]", "[null]", "[null,null]", "{}", "{\"k\":null}", "true", "\"headers\"", "\"stream\"", "9223372036854775808", "18446744073709551615", "[\"a\",1]", "\"user_scope\""}
 
 // mutateJSON replaces / drops / duplicates / case-changes one node of a parsed JSON document.
 func mutateJSON(r *Rng, text string) string {
